@@ -142,10 +142,20 @@ theorem stale_snapshot_safe (s0 : St) (h0 : Initial s0) (sched : List Nat) (i : 
   have hinv := run_inv s0.cur s0 sched (initial_inv s0 h0)
   exact ⟨fun h => (hinv.gotOk i h).1, fun h => hinv.putOk i h⟩
 
-/-- **Sequence numbers stay unique.** If the initial rings have pairwise different sequence numbers
-and imported key lists do too, then under every schedule every stored ring has pairwise different
-sequence numbers. -/
-theorem seqnums_unique (s0 : St) (h0 : Initial s0) (hok : ∀ p, RingOK (s0.cur p))
+/-- **Sequence numbers stay unique** (`seqnums_unique_increasing`, partial). If the initial rings
+have pairwise different sequence numbers and imported key lists do too, then under every schedule
+every stored ring has pairwise different sequence numbers.
+
+*Partial:* the statement also says "increasing". What is missing for a proof: an invariant relating
+every handle's stale snapshot to the stored ring (the snapshot's key list is a prefix of the stored
+one and both are numbered 1..n), so that the sequence number a stale handle computes before locking
+is either present in the stored ring (→ `errTxKeyExists`) or its successor. That invariant holds
+only without import-overwrite: `txSetKeys` may shrink a ring, after which a stale handle can append
+a number *below* the last one (stored 1,2,6 + stale snapshot 1,2 ⇒ 1,2,6,3 – unique, not
+increasing; reachable only with an `ImportOverwrite` delegate, which Acra never installs). The
+increasing order is checked on every final ring of every executed schedule by the oracle
+`seqnum-order` and by trace validation. -/
+theorem seqnums_unique_increasing_partial (s0 : St) (h0 : Initial s0) (hok : ∀ p, RingOK (s0.cur p))
     (hops : ∀ i, ∀ op ∈ (s0.h i).todo, OpOK op) (htx : ∀ i, (s0.h i).txs = [])
     (sched : List Nat) (p : Nat) :
     RingOK ((run s0 sched).cur p) := by
